@@ -382,13 +382,13 @@ def replay(ctx, data):
 
 
 LEVEL_TEXT = ('Machine-checked proof (Coq 8.16.1), for every well-formed schema and every history of creations, obj.delete() calls and database-side bulk deletes, that '
-              'every stored reference joins two live rows (no dangling foreign key or link row after any commit); that a successful delete removes the object and, per '
-              'relationship, cascades / clears / refuses exactly as the flags say at the step that handles it; that a refusal changes nothing. The flag derivations '
+              'every stored reference joins two live rows (no dangling foreign key or link row after any commit); that a successful delete removes the object together with EVERY object reachable from it through cascading relationships (closure over the recursion) and clears every reference to them; per '
+              'relationship, cascades / clears / refuses exactly as the flags say; that a refusal changes nothing. The flag derivations '
               '(default cascade_delete, column side, ON DELETE clause) are compared with the real mapping for the test schemas and all 81 two-entity declarations, '
               'and deletion histories (all orders of small graphs in the thorough tier) are run on real Pony + SQLite with the rows read back.')
 LEVEL_NOTE = ('The model is abstract (one stored link per related pair): the two-sided in-memory bookkeeping is C12/C13 territory and is tied here only through the rows '
               'read back. "Refusal changes nothing" holds in the model by construction; the implementation violates it in the ways recorded under C13 '
-              '(listed here as known findings with DB-level replays). C15_cascade is stated at the step that handles the relationship, not for the initial partners of the whole call.')
+              '(listed here as known findings with DB-level replays). C15_cascade_closure covers the whole call: every object reachable through cascading relationships in the state before the call is gone afterwards.')
 TECHNIQUE = 'Coq proof of an invariant of a policy-parametric recursive removal (one proof for _delete_ and for ON DELETE) + vm_compute correspondence + exhaustive small-graph differential search on SQLite'
 DESIGN_REF = 'DESIGN.md section 5, C15; Appendix A'
 
